@@ -51,6 +51,11 @@ def component_precheck():
     return source_flag('comp', lambda: ABCPropertyGraph.add_component_sliver, 'pairwise distinct')
 
 
+def parent_check():
+    from fim.graph.abc_property_graph import ABCPropertyGraph
+    return source_flag('pchk', lambda: ABCPropertyGraph.add_interface_sliver, 'get_node_properties(node_id=parent_node_id)')
+
+
 def connect_rollback():
     from fim.user.network_service import NetworkService
     return source_flag('conn', lambda: NetworkService.connect_interface, 'remove_cp_and_links')
@@ -112,8 +117,14 @@ def coq_call(s, info, ids):
         return 'CAddChild %s %s %s %s %s' % (cN(ids(info['id'])), cstr(s['name']),
                                              copt(s.get('node_id'), lambda x: cN(ids(x))),
                                              cexn(info['label_verdict']), cexn(info['pure']))
+    if op == 'peer' and s['b'][0] == 'other_svc':
+        return 'CPeerForeign %s %s %s %s %s %s %s' % (cbool(parent_check()), cN(ids(info['a'])), cstr(info['an']),
+                                                    clist([cstr(x) for x in info['ca']]), cstr(info['bn']),
+                                                    clist([cstr(x) for x in info['cb']]), cexn(info['pure']))
     if op == 'peer':
-        return 'CPeer %s %s %s' % (cN(ids(info['a'])), cN(ids(info['b'])), cexn(info['pure']))
+        return 'CPeer %s %s %s %s %s %s %s %s' % (cbool(parent_check()), cN(ids(info['a'])), cstr(info['an']),
+                                                 clist([cstr(x) for x in info['ca']]), cN(ids(info['b'])), cstr(info['bn']),
+                                                 clist([cstr(x) for x in info['cb']]), cexn(info['pure']))
     oid = copt(s.get('node_id'), lambda x: cN(ids(x)))
     name = cstr(s['name'])
     if op == 'add_node':
@@ -125,7 +136,8 @@ def coq_call(s, info, ids):
         return 'CAddNodeService %s %s %s %s %s' % (cN(ids(info['parent'])), name, oid,
                                                   copt(s.get('nstype'), lambda t: cN(ctype(t))), cexn(info['pure']))
     if op == 'add_interface':
-        return 'CAddInterface %s %s %s %s %s' % (cN(ids(info['svc'])), name, oid,
+        return 'CAddInterface %s %s %s %s %s %s %s' % (cbool(parent_check()), cN(ids(info['svc'])),
+                                                      clist([cstr(x) for x in info['cached']]), name, oid,
                                                 copt(s.get('itype'), lambda t: cN(ctype(t))), cexn(info['pure']))
     if op == 'add_link':
         ifs = 'None' if info['ifs'] is None else '(Some %s)' % coq_ifs(info['ifs'], ids)
@@ -239,6 +251,10 @@ class Steps(Stream):
         if canon_full(o['pre']) != canon_full(o['post']):
             d = debris(o['pre'], o['post'])
             return 'the call raised %s but the model changed: %s' % (o['exc'], json.dumps(d)[:600])
+        if o.get('pre_other') is not None and canon_full(o['pre_other']) != canon_full(o['post_other']):
+            d = debris(o['pre_other'], o['post_other'])
+            return 'the call raised %s but the OTHER topology (whose handle was passed) changed: %s' % (
+                o['exc'], json.dumps(d)[:600])
         return None
 
     def known_signature(self, case, o, why):
